@@ -2,15 +2,20 @@
    property names, stated declaratively (independently of any regular
    expression).  Written from the normative text as far as it is certain:
 
-   type names (2.0 part 1 sec. 7.2 / 2.1 sec. 3.1, 11.2): only the characters
-     a-z (lower-case ASCII), 0-9 and hyphen; between 3 and 250 characters;
-     2.1 (sec. 3.1 / 7.3): begins with a letter.  2.0: words separated by ONE
-     hyphen -- no two hyphens in a row (what the library enforces for 2.0;
-     in 2.1 consecutive hyphens are a SHOULD NOT and are not part of the rule);
-   property names (2.0 part 1 sec. 7.1 / 2.1 sec. 3.1, 11.1): only a-z, 0-9
-     and underscore; between 3 and 250 characters; 2.1: begins with a letter
-     (what the library enforces for 2.1).  `id` is the one specification-defined
-     property name shorter than three characters and is a legal name.        *)
+   type names (2.0 part 1 sec. 7.2 / 2.1 sec. 11.2 custom objects): only the
+     characters a-z (lower-case ASCII), 0-9 and hyphen; a hyphen MUST NOT
+     immediately follow another hyphen ("--" separates the type from the UUID
+     in identifiers); between 3 and 250 characters; 2.1: begins with a letter
+     (what the library enforces for 2.1 and the 2.1 JSON schema demands);
+   property names (2.0 part 1 sec. 7.1 / 2.1 sec. 11.1 custom properties): only
+     a-z, 0-9 and underscore; between 3 and 250 characters; 2.1: begins with a
+     letter (what the library enforces for 2.1).  `id` is the one
+     specification-defined property name shorter than three characters and is
+     a legal name.
+
+   `type_name_must` / `prop_name_must` are the parts every reading of the
+   specifications agrees on (character set, hyphen structure, length): the
+   harness's oracle demands refusal exactly for names outside them.          *)
 From Coq Require Import NArith List Arith.
 From V Require Import Base.UString.
 Import ListNotations.
@@ -36,17 +41,18 @@ Inductive spec_version := Stix20 | Stix21.
 
 Definition spec_type_name (V : spec_version) (s : ustring) : Prop :=
   Forall type_char s /\ (3 <= length s <= 250)%nat /\
+  no_double_hyphen s /\
   match V with
-  | Stix20 => no_double_hyphen s
+  | Stix20 => True
   | Stix21 => begins_with_letter s
   end.
 
-(* what "breaks the rules" must at least mean, in both versions: the oracle of
-   the harness demands refusal exactly for names outside this set (plus the
-   leading letter in 2.1) *)
-Definition type_name_must (V : spec_version) (s : ustring) : Prop :=
-  Forall type_char s /\ (3 <= length s <= 250)%nat /\
-  match V with Stix20 => True | Stix21 => begins_with_letter s end.
+(* what "breaks the rules" must at least mean, in both versions *)
+Definition type_name_must (s : ustring) : Prop :=
+  Forall type_char s /\ (3 <= length s <= 250)%nat /\ no_double_hyphen s.
+
+Definition prop_name_must (s : ustring) : Prop :=
+  s = [105; 100] \/ (Forall prop_char s /\ (3 <= length s <= 250)%nat).
 
 Definition spec_prop_name (V : spec_version) (s : ustring) : Prop :=
   (s = [105; 100] \/ (Forall prop_char s /\ (3 <= length s <= 250)%nat)) /\
